@@ -1,6 +1,6 @@
 #!/bin/bash
 # usage: confirm_seed.sh <prop> [suffix]  -- confirms a sub-agent's change in its scratch worktree /tmp/wt-<prop><suffix> and stores it under /verif/seeded/
-P="$1"; SUF="${2:-}"; WT=/tmp/wt-$P$SUF; OUT=/verif/seeded/$P$SUF
+P="$1"; SUF="${2:-}"; WT=${WTDIR:-/tmp/wt-$P$SUF}; OUT=/verif/seeded/$P$SUF
 [ -d "$WT/mutant_out" ] || { echo "no mutant_out in $WT"; exit 1; }
 mkdir -p "$OUT"
 cd "$WT" || exit 1
